@@ -17,7 +17,46 @@ Next == \E c \in Alphabet : Grow(c)
 
 LexAlphabet == {"SQ", "DQ", "BSL", "SP", "LF", "DOL", "a"}
 
+(* ---- the executor matrix: every ($SHELL, --with-shell) pair of these two lists is a CELL ---- *)
+ShellVars == << UnsetShell, ShellVar(EmptyPath), ShellVar(<<"", "bin", "sh">>), ShellVar(<<"", "bin", "bash">>),
+                ShellVar(<<"", "usr", "bin", "fish">>), ShellVar(<<"", "opt", "x", "fish">>), ShellVar(<<"fishy">>),
+                ShellVar(<<"", "bin", "zsh">>) >>
+WithShells == << <<>>, << <<"sh">>, <<"-c">> >>, << <<"bash">>, <<"-c">> >>,
+                 << <<"", "bin", "bash">>, <<"--posix">>, <<"-c">> >>, << <<"fish">>, <<"-c">> >>,
+                 << <<"", "usr", "local", "bin", "fish">>, <<"-c">> >> >>
+NCells == Len(ShellVars) * Len(WithShells)
+Cell(i) == [env |-> ShellVars[((i - 1) \div Len(WithShells)) + 1], ws |-> WithShells[((i - 1) % Len(WithShells)) + 1]]
+CStyle(i) == QuoteStyle(Cell(i).env, Cell(i).ws)
+CEval(i)  == Evaluator(Cell(i).env, Cell(i).ws)
+CKey(i)   == WordsStr(ExecArgv(Cell(i).env, Cell(i).ws))       \* "sh -c", "/bin/bash --posix -c", ...
+(* the (style, evaluator) pairs that occur, the cells per style as a 0/1 mask, the POSIX-evaluated command prefixes *)
+CellPairs == {<<CStyle(i), CEval(i)>> : i \in 1..NCells}
+Mask(style) == FoldLeft(LAMBDA acc, i : acc \o (IF CStyle(i) = style THEN "1" ELSE "0"), "", [i \in 1..NCells |-> i])
+PosixMask == Mask("posix")
+FishMask  == Mask("fish")
+AllMask   == FoldLeft(LAMBDA acc, i : acc \o "1", "", [i \in 1..NCells |-> i])
+PosixKeys == {CKey(i) : i \in {j \in 1..NCells : CEval(j) = "posix"}}
+KeyStyle == [k \in PosixKeys |-> CStyle(CHOOSE i \in 1..NCells : CKey(i) = k)]
+
+(* design level, on the table alone: the style follows the program that evaluates; crossed pairs would not do;     *)
+(* a command prefix determines its style; the matrix exercises both inputs (cells in which $SHELL and              *)
+(* --with-shell disagree about fish, in both directions)                                                            *)
+ASSUME CrossedStylesBreak
+ASSUME \A i \in 1..NCells : (CEval(i) = "fish") <=> (CStyle(i) = "fish")
+ASSUME \A i, j \in 1..NCells : CKey(i) = CKey(j) => CStyle(i) = CStyle(j) /\ CEval(i) = CEval(j)
+ASSUME \E i \in 1..NCells : /\ Cell(i).env.set /\ BaseName(Cell(i).env.path) = "fish" /\ CEval(i) = "posix"
+ASSUME \E i \in 1..NCells : /\ Cell(i).env.set /\ BaseName(Cell(i).env.path) \in PosixShellNames /\ CEval(i) = "fish"
+ASSUME CellPairs = {<<"posix", "posix">>, <<"fish", "fish">>, <<"posix", "other">>}
+(* the table itself, for the Go harness (printed once per TLC run) *)
+EmitCell(i) == PrintT(<<"CELL", ToJson([id |-> i - 1, set |-> Cell(i).env.set, shell |-> PathStr(Cell(i).env.path),
+                                        ws |-> WordsStr(Cell(i).ws), style |-> CStyle(i), ev |-> CEval(i),
+                                        argv |-> [k \in 1..Len(ExecArgv(Cell(i).env, Cell(i).ws)) |->
+                                                    PathStr(ExecArgv(Cell(i).env, Cell(i).ws)[k])]])>>)
+ASSUME \A i \in 1..NCells : EmitCell(i)
+
 (* ---- invariants: data alphabet ---- *)
+(* every executor of the matrix: what it quotes is read back by the program it starts *)
+InvExecutorReadsBack == \A pr \in CellPairs : ReadsBackBy(pr[1], pr[2], s)
 InvQuoteReadsBack   == QuoteReadsBack(s)
 InvQuoteInsideWord  == QuoteInsideWord(s)
 InvEscapeReadsBack  == EscapeReadsBack(s)
@@ -38,9 +77,17 @@ InvLexTotal == ShEval(s).status \in {"OK", "HAZARD", "INCOMPLETE"}
 (* ---- case export ---- *)
 (* the line handed to the real shells: the two quoted forms as separate words, and one glued between letters *)
 QuoteLine(p, e) == p \o <<"SP">> \o e \o <<"SP", "a">> \o p \o <<"a">>
-EmitQuote == PrintT(<<"CASE", ToJson([s |-> Enc(s), p |-> Enc(Quote(s)), f |-> Enc(QuoteFish(s)),
+(* xs: which cells' executors give which quoted form; ev: per POSIX-evaluated command prefix, the quoted form its    *)
+(* executors give and the words the shell model reads from it                                                       *)
+EmitQuote == LET p == Enc(Quote(s))
+                 f == Enc(QuoteFish(s))
+                 pr == p :> EncAll(ShEval(Quote(s)).words)
+                 fr == f :> EncAll(ShEval(QuoteFish(s)).words)
+             IN PrintT(<<"CASE", ToJson([s |-> Enc(s), p |-> p, f |-> f,
                                       e |-> Enc(EscapeSingleQuote(s)),
-                                      w |-> EncAll(ShEval(QuoteLine(Quote(s), EscapeSingleQuote(s))).words)])>>)
+                                      w |-> EncAll(ShEval(QuoteLine(Quote(s), EscapeSingleQuote(s))).words),
+                                      xs |-> IF p = f THEN (p :> AllMask) ELSE (p :> PosixMask) @@ (f :> FishMask),
+                                      ev |-> [k \in PosixKeys |-> IF KeyStyle[k] = "fish" THEN fr ELSE pr]])>>)
 EmitLex == LET r == ShEval(s) IN
            r.status = "OK" => PrintT(<<"CASE", ToJson([t |-> Enc(s), w |-> EncAll(r.words)])>>)
 ================================================================================
